@@ -826,6 +826,19 @@ class Evaluator:
         if cand is None and canon(fn['path']) == 'std::convert::Into::into' and len(fn.get('args') or []) == 2:
             # `x.into()` is `U::from(x)` (core's blanket impl): when the `From` impl is written in this crate, that is the callee
             cand = facts.bodies.get('<%s as std::convert::From<%s>>::from' % (fn['args'][1], fn['args'][0]))
+        if cand is None and fn.get('trait') and st.selfty and str(fn.get('full', '')).startswith('<<Self as '):
+            # `<<Self as Handle<T>>::End as ChannelEnd>::own_count`: a strategy type selected through an associated type of the
+            # concrete Self's impl (`impl Handle<T> for Sender<T> { type End = SendEnd; }`)
+            full = fn['full']
+            m_ = re.match(r'<<Self as ([^>]*(?:<[^<>]*>)?)>::([A-Za-z_][A-Za-z_0-9]*) as ', full)
+            if m_:
+                tr_, assoc = m_.group(1), m_.group(2)
+                want = '<%s as %s>' % (st.selfty, tr_)
+                for im in facts.impls:
+                    if im.get('trait_ref') == want and assoc in (im.get('assoc_tys') or {}):
+                        conc = im['assoc_tys'][assoc]
+                        cand = facts.bodies.get('<' + conc + ' as ' + full[m_.end():].split('::<')[0])
+                        break
         if cand is None and fn.get('trait') and st.selfty and str(fn.get('full', '')).startswith('<Self as '):
             # a required method called from a provided method of a crate-private trait, spliced for a concrete Self
             cand = facts.bodies.get('<' + st.selfty + fn['full'][len('<Self'):])
